@@ -473,7 +473,7 @@ func init() {
 	// ------------------------------------------------------------------ C19
 	register(&Prop{
 		ID: "C19", Level: "exploration", QuickS: 20, ThoroughS: 300,
-		Rule:       "seeded server configurations with 0-5 session middlewares (each adds a distinct context value, any one may fail), optional terminate hook (succeeding or failing), with and without authentication, and command histories (simple and extended, errors, Terminate followed by more bytes); every middleware, parser and statement callback records the context it receives (middleware values, client and server parameters, remote address, type map, liveness, whether the previous command's context has been cancelled); judged by the event-order monitor plus the reference model (which predicts the middleware and terminate-hook events); a quarter of the sessions end abruptly instead (failing write, peer vanishing at a byte offset, read error) and the last command's context is sampled once the connection has ended; variant: a statement cancels the middleware-derived session context, one more query is answered, then Terminate must still run the hook once; E2 variant: Server.Close pinned inside a running statement callback that lets time pass and inspects its context again (live until the command ends); Terminate messages with surplus bytes; non-trivial = at least one middleware is registered and at least one command callback ran, or a middleware failed, or a Terminate was sent; distinct = distinct case content hashes",
+		Rule:       "seeded server configurations with 0-5 session middlewares (each adds a distinct context value, any one may fail), optional terminate hook (succeeding or failing), with and without authentication, and command histories (simple and extended, errors, Terminate followed by more bytes); every middleware, parser and statement callback records the context it receives (middleware values, client and server parameters, remote address, type map, liveness, whether the previous command's context has been cancelled); judged by the event-order monitor plus the reference model (which predicts the middleware and terminate-hook events); a quarter of the sessions end abruptly instead (failing write, peer vanishing at a byte offset, read error) and the last command's context is sampled once the connection has ended; variant: a statement cancels the middleware-derived session context, one more query is answered, then Terminate must still run the hook once; E2 variant: Server.Close pinned inside a running statement callback that lets time pass and inspects its context again (live until the command ends); Terminate messages with surplus bytes; a fifth of the cases build a second Server from the very same option values (plus a middleware of its own) before or after the server under test; non-trivial = at least one middleware is registered and at least one command callback ran, or a middleware failed, or a Terminate was sent; distinct = distinct case content hashes",
 		Components: append(append([]string{}, e1Components...), "E2 share (the variants that pin Server.Close or other connections against a running session): seeded scheduler harness/kernel.go decides every interleaving of connection goroutines and Close callers at transport operations, callbacks, hand-placed hooks and spliced synchronisation points"), Assumptions: commonAssumptions,
 		Gen: func(r *Rand, tier string) *Case {
 			if r.Chance(1, 25) {
@@ -496,6 +496,10 @@ func init() {
 			c.Server.Term = r.Pick("", "ok", "ok", "fail")
 			if r.Chance(1, 4) {
 				c.Server.Auth = "cleartext"
+			}
+			if r.Chance(1, 5) {
+				// a second Server built from the same option values in the same process
+				c.Server.Sibling = r.Pick("before", "after")
 			}
 			genGlobalParams(r, c)
 			genHistory(r, c, histOpts{simple: true, extended: true, errs: true, params: r.Bool(), closes: true, terminate: true, multi: true, copy: r.Chance(1, 6), maxUnits: units(tier, 5)})
